@@ -37,6 +37,9 @@ def gen_case(rng, n, for_fit):
     pool = list(range(n))
     rng.shuffle(pool)
     m = rng.randint(2, min(n, 9 if n <= 14 else 22))
+    long_chain = rng.random() < 0.15 and n >= 6
+    if long_chain:
+        m = rng.randint(6, min(n, 34))      # long path-like must-link components (reachability over many hops)
     nodes = pool[:m]
     ml, cl = [], []
     # components over the chosen nodes
@@ -44,11 +47,13 @@ def gen_case(rng, n, for_fit):
     i = 0
     while i < len(nodes):
         size = rng.randint(1, 4 if n <= 14 else 7)
+        if long_chain and i == 0:
+            size = rng.randint(6, m)
         comps.append(nodes[i:i + size])
         i += size
     for comp in comps:
         if len(comp) >= 2:
-            shape = choice(rng, ["chain", "star", "cycle"])
+            shape = choice(rng, ["chain", "star", "cycle"]) if not (long_chain and comp is comps[0]) else "chain"
             if shape == "chain" or len(comp) == 2:
                 ml += [[comp[t], comp[t + 1]] for t in range(len(comp) - 1)]
             elif shape == "star":
@@ -78,9 +83,11 @@ def gen_case(rng, n, for_fit):
     elif kind == "contradiction_transitive":
         big3 = [c for c in comps if len(c) >= 3]
         if big3:
-            c = choice(rng, big3)
+            c = choice(rng, big3) if not long_chain else comps[0]
             a, b = rng.sample(c, 2)
-            cl.append([a, b])
+            if rng.random() < 0.5:
+                a, b = c[0], c[-1]            # the two ends of a chain: the farthest pair
+            cl.append([a, b] if rng.random() < 0.5 else [b, a])
         elif big:
             c = choice(rng, big)
             cl.append([c[0], c[1]])
